@@ -217,7 +217,7 @@ PROPS = {
         level_text="relational bounded model checking by symbolic execution: Trace on/off (same AST and error), ParseFromLexer leaves the caller's lexer at the first unconsumed token (compared with the reference semantics' end position), Parse(reader) / ParseString / ParseBytes / ParseFromLexer over the parser's own lexer return the same AST and the same error for every symbolic input, Parser.Lex returns the tokens the parse consumes (also with an Upper mapper, which only implements Lex), and a definition's Lex and LexString yield identical streams",
         level_note="trusted: io.Copy / strings.Reader / bytes.Reader models (the writer receives exactly the reader's bytes, no error), fmt model for trace output, reference matcher for regexp on symbolic input; default text/scanner lexer content is outside (routing only)",
         runs=[dict(pkg=".", files=["root/zz_verif_ref.go", "root/zz_verif_parse.go", "root/zz_verif_grammars.go", "root/zz_verif_entry.go", "root/zz_verif_conc.go"], harness="^VH_C15_",
-                   reach={"VH_C15_Routing": ["parsed", "failed"], "VH_C15_RoutingMapped": ["parsed", "failed"], "VH_C15_Trace_Alt": ["traced"], "VH_C15_Cursor_Seq": ["accept"], "VH_C15_LexEntryPoints": ["lexed"]})],
+                   reach={"VH_C15_Routing": ["parsed", "failed"], "VH_C15_RoutingMapped": ["parsed", "failed"], "VH_C15_Trace_Alt": ["traced"], "VH_C15_Cursor_Seq": ["accept"], "VH_C15_LexEntryPoints": ["lexed"], "VH_C15_RoutingDefault": ["parsed", "failed"], "VH_C15_LexEntryPointsDefault": ["lexed", "lex-error"]})],
         bounds=dict(quick="Trace/cursor: 6 grammar x configuration pairs, streams <= 5 tokens; routing: stateful lexer (Ident/Num/elided ws) + grammar, inputs <= 3 arbitrary bytes, filename in {\"\", \"f\"}, with and without Upper(\"Ident\")",
                     thorough="streams <= 7 tokens; inputs <= 4 bytes"),
         outside="the default text/scanner lexer's tokenisation; generated lexers' Lex/LexString/LexBytes (they share one code path: LexBytes and Lex call LexString)",
